@@ -233,6 +233,9 @@ impl AppResponse {
 impl Clone for AppResponse { #[verifier::external_body] fn clone(&self) -> (r: Self) ensures r == *self { AppResponse { events: self.events.clone(), data: self.data.clone() } } }
 
 
+impl Uint128 {
+    pub fn is_zero(&self) -> (r: bool) ensures r == (self.u == 0) { self.u == 0 }
+}
 pub struct Decimal { pub atomics: u128 }
 impl Clone for Decimal { fn clone(&self) -> (r: Self) ensures r == *self { Decimal { atomics: self.atomics } } }
 impl Copy for Decimal {}
